@@ -123,8 +123,30 @@ func Check_Modes() {
 
 	// strict
 	cpS := newCP(collector.DecodingModeStrict)
-	older := sx.Choose("olderTemplate", 2) == 1
+	nOlder := 2
+	if anyUnknown {
+		nOlder = 3
+	}
+	olderKind := sx.Choose("olderTemplate", nOlder)
+	older := olderKind == 1
 	olderTpl := templatePkt([]pos{{known: true, kind: common.KU8}})
+	// older template of kind 2: the same specifiers, except that every unknown
+	// element was announced with another length (a re-definition must win)
+	var olderSame []byte
+	if olderKind == 2 {
+		ps2 := append([]pos(nil), ps...)
+		for i := range ps2 {
+			if !ps2[i].known {
+				if ps2[i].length == 65535 {
+					ps2[i].length = 2
+				} else {
+					ps2[i].length += 4
+				}
+			}
+		}
+		olderSame = templatePkt(ps2)
+		sx.Reach("older-template-same-ids-other-lengths")
+	}
 	if older {
 		// an older, valid (known-only) template for the same id must not survive the
 		// rejected one, nor influence how its replacement is handled in keep / drop mode
@@ -147,6 +169,10 @@ func Check_Modes() {
 	cpK := newCP(collector.DecodingModeLenientKeepUnknown)
 	if older {
 		_, errO := cpK.VerifDecodePacket(olderTpl, "1.2.3.4:5")
+		sx.Assert(errO == nil, "older-template-keep")
+	}
+	if olderSame != nil {
+		_, errO := cpK.VerifDecodePacket(olderSame, "1.2.3.4:5")
 		sx.Assert(errO == nil, "older-template-keep")
 	}
 	mT, errT := cpK.VerifDecodePacket(tpl, "1.2.3.4:5")
@@ -177,6 +203,10 @@ func Check_Modes() {
 	cpD := newCP(collector.DecodingModeLenientDropUnknown)
 	if older {
 		_, errO := cpD.VerifDecodePacket(olderTpl, "1.2.3.4:5")
+		sx.Assert(errO == nil, "older-template-drop")
+	}
+	if olderSame != nil {
+		_, errO := cpD.VerifDecodePacket(olderSame, "1.2.3.4:5")
 		sx.Assert(errO == nil, "older-template-drop")
 	}
 	_, errT = cpD.VerifDecodePacket(tpl, "1.2.3.4:5")
